@@ -148,6 +148,7 @@ def cases(seed, tier):
                     'subwf': prng.random() < 0.3,
                     'retry': prng.random() < 0.15,
                     'warm': prng.random() < 0.4,
+                    'early_rerun': prng.random() < 0.6,
                     'outs': outs,
                     'max_orders': 6 if tier == 'quick' else 24,
                     'tx_orders': 2 if tier == 'quick' else 3,
@@ -265,8 +266,35 @@ def run_case(case):
                 rerun_state['bad'] = bad
                 return True
             use_child = case['subwf'] and k % 2 == 1
-            run = ec.execute(c, extra_monitors=[mon], phases=[
-                child_rerun_phase if use_child else rerun_phase])
+
+            def early_rerun(w, rerun_state=rerun_state):
+                # rerun as soon as the task is CANCELLED (one item was
+                # cancelled) although other items of that attempt are
+                # still running
+                if rerun_state.get('h') or case['retry']:
+                    return
+                t = [t for t in w.rec.rows['task'].values()
+                     if t['name'] == 'w']
+                root = w.root()
+                if not t or t[0]['state'] != 'CANCELLED' or root is None \
+                        or root['state'] != 'CANCELLED':
+                    return
+                rerun_state['from'] = 'CANCELLED-early'
+                w.outcome_rules[:] = [{'t': 'w', 'i': i,
+                                       'outcome': ['ok', 'it-%d' % i]}
+                                      for i in range(n)]
+                rerun_state['h'] = w.op_rerun(t[0]['id'], reset=False)
+                rerun_state['early'] = True
+
+            def hook(w):
+                if case.get('early_rerun') and k == 1 and not use_child:
+                    w.on_boundary = early_rerun
+            run = ec.execute(c, extra_monitors=[mon], setup_hook=hook,
+                             phases=[child_rerun_phase if use_child
+                                     else rerun_phase])
+            if rerun_state.get('early'):
+                res['monitor_evaluations']['early-rerun'] = \
+                    res['monitor_evaluations'].get('early-rerun', 0) + 1
             res['executions'] += 1
             ec.merge_counts(res['events'], run.events)
             ec.merge_counts(res['monitor_evaluations'], run.mon_evals)
